@@ -827,12 +827,12 @@ func parseSpecFile(path, pkgPath string, ext bool) (*SpecFile, error) {
 		case "prelude":
 			sf.Prel = append(sf.Prel, splitProps(rest)...)
 			continue
-		case "define":
+		case "define", "macro":
 			m, err := parseMacro(rest, pos)
 			if err != nil {
 				return nil, err
 			}
-			if cur != nil {
+			if cur != nil && word == "define" {
 				cur.Macros = append(cur.Macros, m)
 			} else {
 				sf.Macros = append(sf.Macros, m)
@@ -1167,6 +1167,9 @@ func (db *SpecDB) add(sf *SpecFile, pkg string) {
 	}
 	for _, t := range sf.Types {
 		k := pkg + "::" + t.Name
+		if strings.Contains(t.Name, "::") {
+			k = t.Name
+		}
 		if old, ok := db.Types[k]; ok {
 			old.Invariants = append(old.Invariants, t.Invariants...)
 			old.GhostFlds = append(old.GhostFlds, t.GhostFlds...)
